@@ -25,7 +25,7 @@ ASSUMPTIONS = [
     "tolerance = half a unit of the last printed digit of the token fmt % x, plus 4 ulp of slack",
 ]
 REQUIRED = ["write_read_pairs", "samples_compared", "wrapped_pairs_multi_line", "pairs_curve_count_multiple_of_capacity",
-            "engine_numpy_pairs", "engine_normal_pairs", "nan_samples_compared", "index_null_equal_samples"]
+            "engine_numpy_pairs", "engine_normal_pairs", "nan_samples_compared", "index_null_equal_samples", "cases_in_memory_dlm_not_space"]
 SOFT_DEADLINE = {"quick": 90, "thorough": 1500}
 LEVEL_TEXT = ("Exploration of the (shape x values x writer options x engine) product space with a per-sample oracle whose "
               "tolerance is derived from the token actually printed; line capacity is observed from the emitted text.")
@@ -169,6 +169,9 @@ def run_case(case, ctx):
     names = ["DEPT"] + ["C%d" % j for j in range(1, n)]
     for j in range(n):
         las.append_curve(names[j], np.array(data[j], dtype=float), unit="m" if j == 0 else "u")
+    if case.get("seed", 0) % 4 == 1:
+        las.version["DLM"].value = ["COMMA", "TAB"][case.get("seed", 0) % 8 == 1]
+        ctx.count("cases_in_memory_dlm_not_space")
     if kw.get("wrap") is True and case.get("seed", 0) % 3 == 0:
         # wrap=None: the in-memory WRAP item decides
         del kw["wrap"]
